@@ -656,18 +656,18 @@ class Prefix:
         name: Optional[str] = None,
         symbol: Optional[str] = None,
     ) -> None:
-        if self._initialized:
-            return
+        if not self._initialized:
+            self.base = base
+            self.exponent = exponent
+            self.name = None
+            self.symbol = None
+            self._initialized = True
 
-        self.base = base
-        self.exponent = exponent
-        self.name = name
-        self.symbol = symbol
-        self._initialized = True
-
-        if name:
+        if name and not self.name:
+            self.name = name
             self._by_name[name] = self
-        if symbol:
+        if symbol and not self.symbol:
+            self.symbol = symbol
             self._by_symbol[symbol] = self
 
     @classmethod
